@@ -273,6 +273,11 @@ func driveAggregate(t *testing.T, in, out string, seed int64) {
 					paramproposal.NewParamChange(aggtypes.ModuleName, string(aggtypes.ParamStoreKeyEnableAggregate), fmt.Sprint(on))})
 				res, msg := c.ExecProposal(content)
 				line["res"], line["msg"] = res, clip(msg)
+			case "ParamHook":
+				content := paramproposal.NewParameterChangeProposal("t", "d", []paramproposal.ParamChange{
+					paramproposal.NewParamChange(aggtypes.ModuleName, string(aggtypes.ParamStoreKeyEnableEVMHook), fmt.Sprint(st["on"].(bool)))})
+				res, msg := c.ExecProposal(content)
+				line["res"], line["msg"] = res, clip(msg)
 			case "Destroy":
 				// the contract self-destructs (the repository's tests reach this state the same way)
 				a := w.contractAddr(str(st["c"]))
